@@ -18,7 +18,7 @@ import (
 
 // ConnSpec: the state a connection is brought into before Close is called.
 type ConnSpec struct {
-	State string `json:"state"` // idle | auth-prompt | after-panic | midbatch | midmsg | admitted | registered | in-stmt | in-exec | in-parser | pipelined
+	State string `json:"state"` // idle | in-copy | auth-prompt | after-panic | midbatch | midmsg | admitted | registered | in-stmt | in-exec | in-parser | pipelined
 }
 
 // CloserSpec: one Close caller and the point it is (cooperatively) held at.
@@ -103,6 +103,9 @@ func table(n int) script.Table {
 	tb := script.Table{Q: map[string]script.Outcome{
 		"select 1": {Stmts: []script.Stmt{{Cols: []script.Col{{Name: "a", T: "int4"}}, Ops: []script.Op{{K: "row", Vals: []script.Val{{T: "int4", I: 1}}}, {K: "complete", Tag: "SELECT 1"}}}}},
 	}}
+	// COPY-in read to the end of the stream: the statement function is running for as long as the client
+	// keeps the stream open
+	tb.Q["copy in"] = script.Outcome{Stmts: []script.Stmt{{Cols: []script.Col{{Name: "a", T: "text"}}, Ops: []script.Op{{K: "copyin", Copy: &script.CopySpec{MaxReads: -1, OnAbort: "propagate"}}, {K: "complete", Tag: "COPY"}}}}}
 	tb.Q["panics"] = script.Outcome{Stmts: []script.Stmt{{Ops: []script.Op{{K: "panic"}}}}}
 	for i := 0; i < n; i++ {
 		tb.Q[fmt.Sprintf("gated%d", i)] = script.Outcome{Stmts: []script.Stmt{{Ops: []script.Op{{K: "gate", Gate: fmt.Sprintf("g%d", i)}, {K: "complete", Tag: "GATED"}}}}}
@@ -156,7 +159,7 @@ func Run(c Case) (res core.Result) {
 	for _, cs := range c.Conns {
 		res.Labels = append(res.Labels, "conn="+cs.State)
 		switch cs.State {
-		case "admitted", "registered", "in-stmt", "in-exec", "in-parser", "pipelined", "after-panic":
+		case "admitted", "registered", "in-stmt", "in-exec", "in-parser", "pipelined", "after-panic", "in-copy":
 			inflight++
 		}
 	}
@@ -212,6 +215,14 @@ func Run(c Case) (res core.Result) {
 			s.Send(append(b, pgwire.Sync()...))
 			s.C.Send(pgwire.Query(gq))
 			waitGate()
+		case "in-copy":
+			// the statement function has started a COPY-in and waits for the client's data: a handler
+			// that has started; it ends when the client ends the stream (at this connection's release)
+			s.C.Send(pgwire.Query("copy in"))
+			s.C.WaitIdle(grace * 4)
+			s.C.Send(pgwire.CopyData([]byte("first chunk\n")))
+			s.C.WaitIdle(grace * 4)
+			rest[i] = pgwire.CopyDone()
 		case "midbatch":
 			// half way through an extended-query series: Parse and Bind answered, no Sync yet; the rest
 			// of the series arrives after Close has returned and must not start anything
